@@ -38,9 +38,9 @@ constexpr auto begin(T (&array)[N]) noexcept -> T*
 
 /// \ingroup iterator
 template <typename C>
-constexpr auto cbegin(C const& c) noexcept(noexcept(begin(c))) -> decltype(begin(c))
+constexpr auto cbegin(C const& c) noexcept(noexcept(etl::begin(c))) -> decltype(etl::begin(c))
 {
-    return begin(c);
+    return etl::begin(c);
 }
 
 } // namespace etl
